@@ -154,6 +154,9 @@ def write_ev(ctx, t0, n_viol, printed_known, selftest):
     EVIDENCE_DIR.mkdir(exist_ok=True)
     obs = ctx.obligations
     distinct = {o.key for o in obs if o.witness is not None}
+    if os.environ.get('SA_DUMP_KEYS'):   # debugging aid: every obligation key of this run, one per line
+        with open(os.environ['SA_DUMP_KEYS'], 'w') as fh:
+            fh.write(''.join(f'{o.key}\t{o.ok}\n' for o in obs))
     samples = [o.as_dict() for o in obs[:3]] + [o.as_dict() for o in obs if not o.ok][:5]
     per_rule = {}
     for o in obs:
